@@ -24,6 +24,8 @@ import (
 	"time"
 
 	"github.com/VKCOM/statshouse/internal/data_model"
+	"github.com/VKCOM/statshouse/internal/format"
+	"github.com/VKCOM/statshouse/internal/promql"
 	vu "github.com/VKCOM/statshouse/internal/verifutil"
 )
 
@@ -46,7 +48,7 @@ var (
 )
 
 type vc2Op struct {
-	kind  byte     // 'T' tick d | 'G' get | 'L' loaddone | 'I' invalidate | 'R' reset | 'S' setlimits | 'X' shutdown
+	kind  byte     // 'T' tick d | 'G' get | 'L' loaddone | 'I' invalidate | 'R' reset | 'S' setlimits | 'X' shutdown | 'C' cancel rid | 'B' invalidate pass begins | 'N' pass: next bucket
 	a     [6]int64 // G: rid step key from to play | T: d | L: load | I: step | S: age max soft
 	flag  bool     // G: force | L: ok
 	times []int64
@@ -66,6 +68,12 @@ func (op *vc2Op) term() string {
 		return "Reset"
 	case 'S':
 		return fmt.Sprintf("SetLimits %s %s %s", vu.Z(op.a[0]), vu.Z(op.a[1]), vu.Z(op.a[2]))
+	case 'C':
+		return "Cancel " + vu.Z(op.a[0])
+	case 'B':
+		return fmt.Sprintf("InvBegin %s %s", vu.Z(op.a[0]), vu.ListZ(op.times))
+	case 'N':
+		return "InvNext"
 	}
 	return "Shutdown"
 }
@@ -91,6 +99,12 @@ func (op *vc2Op) text() string {
 		return "R"
 	case 'S':
 		return fmt.Sprintf("S(%d,%d,%d)", op.a[0], op.a[1], op.a[2])
+	case 'C':
+		return fmt.Sprintf("C%d", op.a[0])
+	case 'B':
+		return fmt.Sprintf("IB(s%d,%v)", op.a[0], op.times)
+	case 'N':
+		return "IN"
 	}
 	return "X"
 }
@@ -106,15 +120,17 @@ type vc2Load struct {
 }
 
 type vc2Req struct {
-	op       vc2Op
-	startSeq int
-	done     bool
-	err      bool
+	op        vc2Op
+	startSeq  int
+	done      bool
+	err       bool
+	cancel    context.CancelFunc
+	cancelled bool
 }
 
 type vc2Inval struct {
 	step, cstart int64 // chunk start, relative seconds
-	seq          int
+	begin, seq   int   // the pass began in step begin and completed in step seq (equal for a one-step invalidate)
 }
 
 type vc2Result struct {
@@ -141,6 +157,8 @@ type vc2Hist struct {
 	minChunkLat  int64 // min lastAccessTime over attached chunks at the last snapshot (units), MaxInt64 if none
 	wokenAged    int64 // maxAge of a SetLimits step that woke the trim goroutine, else 0
 	limits       cache2Limits
+	passActive   bool // an invalidation pass is being driven bucket by bucket
+	stuck        bool // goroutines of the bubble were left blocked forever
 }
 
 func vc2FloorDiv(a, b int64) int64 {
@@ -199,9 +217,20 @@ func vc2RowsLoad(rows []tsSelectRow, step, key, tRel, baseSec int64) int64 {
 	return l
 }
 
-func vc2RunHistory(cs int64, gen func(h *vc2Hist) *vc2Op) *vc2Hist {
-	h := &vc2Hist{cs: cs, reqs: map[int64]*vc2Req{}, fails: map[string]bool{}, kinds: map[string]bool{}, nextRid: 1}
+func vc2RunHistory(cs int64, gen func(h *vc2Hist) *vc2Op) (h *vc2Hist) {
+	h = &vc2Hist{cs: cs, reqs: map[int64]*vc2Req{}, fails: map[string]bool{}, kinds: map[string]bool{}, nextRid: 1}
 	vc2Current.Store(h)
+	defer func() {
+		// synctest.Run panics when goroutines of the bubble stay blocked forever after the history ended:
+		// "no request waits forever" / a loader that never finishes
+		if e := recover(); e != nil {
+			if !strings.Contains(fmt.Sprint(e), "deadlock") {
+				panic(e)
+			}
+			h.stuck = true
+			h.fails["cache2_goroutine_blocked_forever"] = true
+		}
+	}()
 	synctest.Run(func() {
 		base := time.Now()
 		baseSec := base.Unix()
@@ -340,6 +369,15 @@ func vc2RunHistory(cs int64, gen func(h *vc2Hist) *vc2Op) *vc2Hist {
 			return acc, actualSize, nBuckets, nChunks, nAw, nLoading
 		}
 
+		var (
+			passShard  *cache2Shard
+			passStarts []int64
+			passTimes  []int64
+			passNow    int64
+			passEnd    int64
+			passBegin  int
+			passStep   int64
+		)
 		ending := false
 		for {
 			var op *vc2Op
@@ -350,7 +388,9 @@ func vc2RunHistory(cs int64, gen func(h *vc2Hist) *vc2Op) *vc2Hist {
 				}
 			}
 			if ending {
-				if fl := h.inflight(); len(fl) > 0 {
+				if h.passActive {
+					op = &vc2Op{kind: 'N'}
+				} else if fl := h.inflight(); len(fl) > 0 {
 					op = &vc2Op{kind: 'L', flag: true}
 					op.a[0] = fl[0].id
 				} else if !h.shut {
@@ -374,7 +414,8 @@ func vc2RunHistory(cs int64, gen func(h *vc2Hist) *vc2Op) *vc2Hist {
 				h.nowU += op.a[0]
 			case 'G':
 				rid := op.a[0]
-				r := &vc2Req{op: *op, startSeq: seqNow}
+				ctx, cancel := context.WithCancel(context.Background())
+				r := &vc2Req{op: *op, startSeq: seqNow, cancel: cancel}
 				mu.Lock()
 				h.reqs[rid] = r
 				mu.Unlock()
@@ -382,7 +423,7 @@ func vc2RunHistory(cs int64, gen func(h *vc2Hist) *vc2Op) *vc2Hist {
 				lod := data_model.LOD{Version: Version6, StepSec: op.a[1], FromSec: baseSec + op.a[3], ToSec: baseSec + op.a[4], Location: time.UTC}
 				force := op.flag
 				go func() {
-					res, err := c.Get(context.Background(), rh, q, lod, force)
+					res, err := c.Get(ctx, rh, q, lod, force)
 					mu.Lock()
 					results = append(results, vc2Result{rid, res, err})
 					mu.Unlock()
@@ -399,7 +440,7 @@ func vc2RunHistory(cs int64, gen func(h *vc2Hist) *vc2Op) *vc2Hist {
 				abs := make([]int64, len(op.times))
 				for i, t := range op.times {
 					abs[i] = baseSec + t
-					h.invals = append(h.invals, vc2Inval{op.a[0], vc2FloorDiv(t, cs*op.a[0]) * cs * op.a[0], seqNow})
+					h.invals = append(h.invals, vc2Inval{op.a[0], vc2FloorDiv(t, cs*op.a[0]) * cs * op.a[0], seqNow, seqNow})
 				}
 				c.invalidate(abs, op.a[0])
 			case 'R':
@@ -425,6 +466,53 @@ func vc2RunHistory(cs int64, gen func(h *vc2Hist) *vc2Op) *vc2Hist {
 					h.limits = n
 				}
 				c.setLimits(v)
+			case 'C':
+				if r := h.reqs[op.a[0]]; r != nil && !r.done {
+					r.cancelled = true
+					h.kinds["cancelled_in_flight"] = true
+				}
+				if r := h.reqs[op.a[0]]; r != nil {
+					r.cancel()
+				}
+			case 'B':
+				// cache2.invalidate up to its first bucket: the harness re-enacts the four-line loop of
+				// shard.invalidate with the real iterator functions so that other calls can run between buckets
+				// (the code releases the shard lock there)
+				shard := c.shards[time.Duration(op.a[0])*time.Second]
+				var starts []int64
+				for i, t := range op.times {
+					t *= int64(time.Second)
+					t += baseSec * int64(time.Second)
+					if i == 0 || passEnd <= t {
+						st := c.chunkStart(shard, t)
+						passEnd = c.chunkEnd(shard, st)
+						starts = append(starts, st)
+					}
+				}
+				passShard, passStarts, passNow, passBegin, passTimes, passStep = shard, starts, time.Now().UnixNano(), seqNow, op.times, op.a[0]
+				if b := shard.invalidateIteratorStart(); b != nil {
+					b.invalidate(passStarts, passNow)
+					h.passActive = true
+				} else {
+					h.passActive = false
+				}
+				if !h.passActive {
+					for _, t := range passTimes {
+						h.invals = append(h.invals, vc2Inval{passStep, vc2FloorDiv(t, cs*passStep) * cs * passStep, passBegin, seqNow})
+					}
+				}
+			case 'N':
+				if h.passActive {
+					if b := passShard.invalidateIteratorNext(); b != nil {
+						b.invalidate(passStarts, passNow)
+						h.kinds["pass_bucket_step"] = true
+					} else {
+						h.passActive = false
+						for _, t := range passTimes {
+							h.invals = append(h.invals, vc2Inval{passStep, vc2FloorDiv(t, cs*passStep) * cs * passStep, passBegin, seqNow})
+						}
+					}
+				}
 			case 'X':
 				c.shutdown().Wait()
 				h.shut = true
@@ -467,7 +555,7 @@ func vc2RunHistory(cs int64, gen func(h *vc2Hist) *vc2Op) *vc2Hist {
 							if play == 0 && ld.finishSeq != 0 {
 								cst := vc2FloorDiv(t, cs*step) * cs * step
 								for _, iv := range h.invals {
-									if iv.step == step && iv.cstart == cst && ld.finishSeq < iv.seq && iv.seq < r.startSeq {
+									if iv.step == step && iv.cstart == cst && ld.finishSeq < iv.begin && iv.seq < r.startSeq {
 										h.fails["cache2_stale_after_invalidate"] = true
 									}
 								}
@@ -483,7 +571,11 @@ func vc2RunHistory(cs int64, gen func(h *vc2Hist) *vc2Op) *vc2Hist {
 					}
 				} else {
 					h.kinds["get_failed"] = true
-					if !errors.Is(g.err, errVerifCache2) {
+					if errors.Is(g.err, context.Canceled) {
+						if !r.cancelled {
+							h.fails["cache2_cancelled_without_cancel"] = true
+						}
+					} else if !errors.Is(g.err, errVerifCache2) {
 						h.fails["cache2_foreign_error"] = true
 					}
 				}
@@ -603,8 +695,9 @@ func vc2Random(r *vu.Rng) *vc2Hist {
 		steps = []int64{1, 5, 15}
 	}
 	length := 15 + r.Intn(40)
-	nkeys := 1 + r.Intn(2)
-	mode := r.Intn(10) // 0-5 no limits, 6-7 size limits, 8-9 limits with ageing episodes
+	nkeys := 1 + r.Intn(3)
+	splitPasses := r.Chance(35) // invalidation passes driven bucket by bucket, other calls in between
+	mode := r.Intn(10)          // 0-5 no limits, 6-7 size limits, 8-9 limits with ageing episodes
 	n := 0
 	lastTick := true  // no Get since the last Tick: Gets must have pairwise distinct times (trim order), nothing else needs a tick
 	var queue []vc2Op // ops that must follow immediately
@@ -643,6 +736,23 @@ func vc2Random(r *vu.Rng) *vc2Hist {
 			return nil
 		}
 		n++
+		if h.passActive && r.Chance(45) {
+			return &vc2Op{kind: 'N'}
+		}
+		if r.Chance(4) {
+			// cancel a request that is still waiting (or, rarely, any request)
+			var pend []int64
+			for id := int64(1); id < h.nextRid; id++ {
+				if q := h.reqs[id]; q != nil && (!q.done || r.Chance(10)) {
+					pend = append(pend, id)
+				}
+			}
+			if len(pend) > 0 {
+				op := vc2Op{kind: 'C'}
+				op.a[0] = pend[r.Intn(len(pend))]
+				return &op
+			}
+		}
 		for {
 			x := r.Intn(100)
 			fl := h.inflight()
@@ -677,6 +787,9 @@ func vc2Random(r *vu.Rng) *vc2Hist {
 				t := vc2T(d)
 				return &t
 			case x < 86:
+				if h.passActive {
+					continue // one invalidator at a time (shard.invalidateIter is shared)
+				}
 				step := steps[r.Intn(len(steps))]
 				d := cs * step
 				var ts []int64
@@ -692,6 +805,9 @@ func vc2Random(r *vu.Rng) *vc2Hist {
 					t += int64(r.Intn(int(2 * d)))
 				}
 				op := vc2I(step, ts...)
+				if splitPasses && r.Chance(70) {
+					op.kind = 'B'
+				}
 				return &op
 			case x < 89:
 				return &vc2Op{kind: 'R'}
@@ -819,8 +935,194 @@ func TestVerifCache2(t *testing.T) {
 		return nil
 	})
 	w4.emit(o, "directed-aged")
+	// an invalidation pass stands between bucket k1 and k2 while the trimmer evicts k2 (the least recently used, the
+	// bucket shard.invalidateIter points to); the pass must still reach k3, whose rows a later request must not get
+	pre5 := []vc2Op{vc2G(1, 1, 1, -40, -36, 0, false), vc2L(1, true), vc2T(2), vc2G(2, 1, 2, -40, -36, 0, false), vc2L(2, true),
+		vc2T(2), vc2G(3, 1, 3, -40, -36, 0, false), vc2L(3, true), vc2T(2), vc2G(4, 1, 1, -40, -36, 0, false),
+		vc2T(2), vc2G(5, 1, 3, -40, -36, 0, false), vc2T(2), {kind: 'B', a: [6]int64{1}, times: []int64{-39}}}
+	post5 := []vc2Op{{kind: 'N'}, {kind: 'N'}, vc2T(2), vc2G(6, 1, 3, -40, -36, 0, false), vc2T(2), vc2G(7, 1, 1, -40, -36, 0, false)}
+	k5 := 0
+	w5 := vc2RunHistory(4, func(h *vc2Hist) *vc2Op {
+		k5++
+		switch {
+		case k5 <= len(pre5):
+			return &pre5[k5-1]
+		case k5 == len(pre5)+1:
+			op := vc2S(0, int64(h.size), int64(h.size)-1) // one eviction brings the size under the soft limit
+			return &op
+		case k5 <= len(pre5)+1+len(post5):
+			return &post5[k5-len(pre5)-2]
+		}
+		return nil
+	})
+	w5.emit(o, "directed-pass-vs-eviction")
+	// a request cancelled while its storage call is in flight; a fresh request for the same chunk must be served
+	w6 := vc2RunHistory(4, vc2Script([]vc2Op{
+		vc2G(1, 1, 1, -40, -36, 0, false), {kind: 'C', a: [6]int64{1}}, vc2T(2), vc2G(2, 1, 1, -38, -36, 0, false), vc2L(1, true),
+		vc2T(2), vc2G(3, 1, 1, -40, -32, 0, false), {kind: 'C', a: [6]int64{3}}, vc2T(2), vc2G(4, 1, 1, -34, -32, 0, false), vc2L(2, false), vc2T(2), vc2G(5, 1, 1, -40, -32, 0, false)}))
+	w6.emit(o, "directed-cancel")
+	vc2KeyCases(o, r)
 	for i := 0; i < n; i++ {
 		vc2Dump = os.Getenv("VERIF_C2_DUMP") == fmt.Sprintf("r%d", i)
 		vc2Random(r).emit(o, fmt.Sprintf("r%d", i))
 	}
+}
+
+// ---- the boundary between callers and the cache: which query a request is keyed by ----
+
+type vc2KeyParams struct {
+	metric   int32
+	what     int // index into vc2Whats
+	by       int // index into vc2Bys
+	fin, fex int // index into vc2Filters
+	sort     querySort
+	mm       int // minMaxHost bits
+}
+
+var vc2Whats = []tsWhat{
+	{promql.DigestCount.Selector()},
+	{promql.DigestSum.Selector()},
+	{promql.DigestCount.Selector(), promql.DigestSum.Selector()},
+	{promql.DigestAvg.Selector(), promql.DigestCount.Selector(), promql.DigestMax.Selector(), promql.DigestMin.Selector(), promql.DigestSum.Selector(), promql.DigestStdDev.Selector(), promql.DigestCardinality.Selector()},
+	{promql.DigestUnique.Selector()},
+}
+var vc2Bys = [][]int{nil, {1}, {2}, {1, 2}}
+
+func vc2Filter(i int) (f data_model.TagFilters) {
+	switch i {
+	case 1:
+		f.Tags[1].Values = data_model.TagValues{data_model.NewTagValue("a", 7)}
+	case 2:
+		f.Tags[1].Values = data_model.TagValues{data_model.NewTagValue("b", 8)}
+	case 3:
+		f.Tags[2].Values = data_model.TagValues{data_model.NewTagValue("a", 7)}
+	}
+	return f
+}
+
+func (p vc2KeyParams) builder() *queryBuilder {
+	return &queryBuilder{
+		metric:      &format.MetricMetaValue{MetricID: p.metric},
+		what:        vc2Whats[p.what],
+		by:          append([]int(nil), vc2Bys[p.by]...),
+		filterIn:    vc2Filter(p.fin),
+		filterNotIn: vc2Filter(p.fex),
+		sort:        p.sort,
+		minMaxHost:  [2]bool{p.mm&1 != 0, p.mm&2 != 0},
+	}
+}
+
+func vc2KeyCases(o *vu.Out, r *vu.Rng) {
+	const term = "CHist 2 24 1456 [] []"
+	// (a) getOrBuildCacheKey: two queries get the same cache key exactly when they are the same query
+	for n := 0; n < 40; n++ {
+		draw := func() vc2KeyParams {
+			return vc2KeyParams{metric: int32(1 + r.Intn(2)), what: r.Intn(len(vc2Whats)), by: r.Intn(len(vc2Bys)), fin: r.Intn(4), fex: r.Intn(4),
+				sort: querySort(r.Intn(3)), mm: r.Intn(4)}
+		}
+		a := draw()
+		b := a
+		switch r.Intn(8) { // differ in exactly one component, or not at all
+		case 0:
+			b.what = (a.what + 1 + r.Intn(len(vc2Whats)-1)) % len(vc2Whats)
+		case 1:
+			b.by = (a.by + 1 + r.Intn(len(vc2Bys)-1)) % len(vc2Bys)
+		case 2:
+			b.fin = (a.fin + 1 + r.Intn(3)) % 4
+		case 3:
+			b.fex = (a.fex + 1 + r.Intn(3)) % 4
+		case 4:
+			b.sort = querySort((int(a.sort) + 1 + r.Intn(2)) % 3)
+		case 5:
+			b.metric = 3 - a.metric
+		case 6:
+			b.mm = (a.mm + 1 + r.Intn(3)) % 4
+		}
+		ka, kb := a.builder().getOrBuildCacheKey(), b.builder().getOrBuildCacheKey()
+		input := fmt.Sprintf("cache2 keys %+v vs %+v", a, b)
+		line := o.Case(input, term, a != b, "cache_key_pair")
+		if (a == b) != (ka == kb) {
+			o.Fail("distinct_queries_distinct_keys", line, input)
+		}
+		// the key is a function of the query at the time of the call: a builder whose query is changed must not
+		// keep answering with the key of the old query ... unless it is a new builder (what callers must do)
+	}
+	// (b) the table handler: each function group (more than tsValueCount aggregates make several) is a query of its
+	// own; through the real getTableFromLODs -> cache2.Get every group must get the rows the storage produced for it
+	all := []promql.SelectorWhat{{Digest: promql.DigestAvg}, {Digest: promql.DigestCount}, {Digest: promql.DigestMax}, {Digest: promql.DigestMin},
+		{Digest: promql.DigestSum}, {Digest: promql.DigestStdDev}, {Digest: promql.DigestCardinality}, {Digest: promql.DigestUnique}}
+	for n := 0; n < 6; n++ {
+		cnt := 8
+		if n >= 4 {
+			cnt = 3 + r.Intn(5) // a single group
+		}
+		whats := append([]promql.SelectorWhat(nil), all...)
+		for i := len(whats) - 1; i > 0; i-- {
+			j := r.Intn(i + 1)
+			whats[i], whats[j] = whats[j], whats[i]
+		}
+		whats = whats[:cnt]
+		nlods := 1 + r.Intn(2)
+		input := fmt.Sprintf("cache2 table groups: %d aggregates %v, %d lods", cnt, whats, nlods)
+		bad, calls, groups := vc2TableGroups(whats, nlods)
+		line := o.Case(input, term, groups > 1, "table_groups")
+		for _, f := range bad {
+			o.Fail(f, line, input)
+		}
+		if calls == 0 {
+			o.Fail("cache2_table_made_no_query", line, input)
+		}
+	}
+}
+
+func vc2TableGroups(whats []promql.SelectorWhat, nlods int) (bad []string, calls int, groups int) {
+	loc := time.UTC
+	h := &requestHandler{Handler: &Handler{HandlerOptions: HandlerOptions{location: loc}}}
+	fails := map[string]bool{}
+	c := newCache2(h.Handler, 0, func(_ context.Context, _ *requestHandler, q *queryBuilder, lod data_model.LOD, ret [][]tsSelectRow, _ int) (int, error) {
+		for i := range ret {
+			ret[i] = []tsSelectRow{{what: q.what, time: lod.FromSec + int64(i)*lod.StepSec, tsValues: tsValues{count: 1, min: 1, max: 1, sum: 1}}}
+		}
+		return len(ret), nil
+	})
+	defer c.shutdown()
+	seen := map[tsWhat]bool{}
+	load := func(ctx context.Context, h *requestHandler, pq *queryBuilder, lod data_model.LOD, avoidCache bool) ([][]tsSelectRow, error) {
+		calls++
+		seen[pq.what] = true
+		data, err := c.Get(ctx, h, pq, lod, avoidCache)
+		if err != nil {
+			fails["cache2_table_get_failed"] = true
+			return nil, err
+		}
+		for i := range data {
+			if len(data[i]) != 1 || data[i][0].time != lod.FromSec+int64(i)*lod.StepSec {
+				fails["cache2_table_placement"] = true
+			} else if data[i][0].what != pq.what {
+				fails["cache2_rows_of_another_query"] = true // the answer was keyed by another query than the one asked
+			}
+		}
+		return data, nil
+	}
+	p := tableReqParams{
+		req:            seriesRequest{numResults: 1000, what: whats},
+		metricMeta:     &format.MetricMetaValue{},
+		desiredStepMul: 1,
+		location:       loc,
+	}
+	base := (time.Now().Add(-time.Hour).Unix() / 60) * 60
+	var lods []data_model.LOD
+	for i := 0; i < nlods; i++ {
+		lods = append(lods, data_model.LOD{Version: Version6, FromSec: base + int64(i)*60, ToSec: base + int64(i)*60 + 10, StepSec: 1, Location: loc})
+	}
+	for n := 0; n < 2; n++ { // cold, then warm cache
+		if _, _, err := h.getTableFromLODs(context.Background(), lods, p, load); err != nil {
+			fails["cache2_table_failed"] = true
+		}
+	}
+	for f := range fails {
+		bad = append(bad, f)
+	}
+	sort.Strings(bad)
+	return bad, calls, len(seen)
 }
